@@ -270,7 +270,7 @@ def run_one(m, tier_args):
             res["error"] = str(e)
             return res
         # the mutated package must still import
-        env = dict(os.environ, PYFVTOOL_SRC=tmp)
+        env = dict(os.environ, PYFVTOOL_SRC=tmp, VERIF_REPLAY_DIR=os.path.join(tmp, "_replays"))
         p = subprocess.run(["/venv/bin/python", "-c",
                             "import sys; sys.path.insert(0, %r); import pyfvtool" % tmp],
                            capture_output=True, text=True, env=env)
